@@ -1,4 +1,5 @@
 import MorfuseModel.Emit.SimEmit2
+import MorfuseModel.Emit.NoCO
 /-!
 # The program pass of a compile stays within the length the counting pass computed (class `Node.plain`)
 -/
@@ -10,26 +11,26 @@ def Fresh (L : Nat) (s : St) : Prop :=
   s.counting = false ∧ s.prev = (St.init false).prev ∧ s.prevPos = 0 ∧ s.gross = 0 ∧ s.pos = 0 ∧ s.progLen = L ∧
   s.nBrk = 0 ∧ s.nCont = 0 ∧ s.canBreak = false ∧ s.canContinue = false ∧ s.switchDepth = 0
 
-theorem alloc_fresh {L : Nat} (s : St) (n : Nat) (h : Fresh L s) : wp (s.alloc n) (Fresh L) (fun _ => True) := by
+theorem alloc_fresh {L : Nat} (s : St) (n : Nat) (h : Fresh L s) : wp (s.alloc n) (Fresh L) ECO := by
   unfold St.alloc
   split
-  · trivial
+  · simp [ECO]
   · exact h
 
 theorem resize_fresh {L : Nat} (ls : LabelSet) (n : Nat) (s : St) (h : Fresh L s) :
-    wp (ls.resize n s) (fun r => Fresh L r.2) (fun _ => True) := by
+    wp (ls.resize n s) (fun r => Fresh L r.2) ECO := by
   unfold LabelSet.resize
   split
   · exact h
   · wp_simp
-    exact wp_mono (alloc_fresh s _ h) (fun a ha => by simpa using ha) (fun _ _ => trivial)
+    exact wp_mono (alloc_fresh s _ h) (fun a ha => by simpa using ha) (fun _ h => h)
 
-theorem preallocate_fresh (dev : Bool) (i : SizeInfo) : wp (preallocate dev i) (Fresh i.progLength) (fun _ => True) := by
+theorem preallocate_fresh (dev : Bool) (i : SizeInfo) : wp (preallocate dev i) (Fresh i.progLength) ECO := by
   unfold preallocate
   wp_simp
   repeat' (first
-    | (wp_simp; with_reducible refine wp_mono (alloc_fresh (L := i.progLength) _ _ ?_) (fun _ _ => ?_) (fun _ _ => trivial))
-    | (wp_simp; with_reducible refine wp_mono (resize_fresh (L := i.progLength) _ _ _ ?_) (fun _ _ => ?_) (fun _ _ => trivial))
+    | (wp_simp; with_reducible refine wp_mono (alloc_fresh (L := i.progLength) _ _ ?_) (fun _ _ => ?_) (fun _ h => h))
+    | (wp_simp; with_reducible refine wp_mono (resize_fresh (L := i.progLength) _ _ _ ?_) (fun _ _ => ?_) (fun _ h => h))
     | ((with_reducible show Fresh _ _); first | assumption | (simp [Fresh, St.init]; done) | (simp only [Fresh] at *; first | assumption | simp_all [St.init]))
     | (wp_simp; with_reducible show True; trivial)
     | (wp_simp; split))
@@ -48,7 +49,7 @@ theorem W_fresh {L : Nat} (s : St) (h : Fresh L s) : W (St.init true) s := by
 counting pass computed** (`ScriptProgramManager::WriteOpcodeValue`'s assert, hook H3 kind 1) -/
 theorem plain_code_fits (dev : Bool) (root : Node) (hpl : root.plain = true) (c : St)
     (hc : emitRoot root (St.init true) = .ok c) :
-    wp (preallocate dev c.info) (fun s => emitRoot root s ≠ .error (.ub .codeOverflow)) (fun _ => True) := by
+    wp (preallocate dev c.info) (fun s => emitRoot root s ≠ .error (.ub .codeOverflow)) ECO := by
   refine wp_mono (preallocate_fresh dev c.info) ?_ (fun _ h => h)
   intro s hs
   have hrel : Rel c.info.progLength (St.init true) s := by
@@ -63,5 +64,44 @@ theorem plain_code_fits (dev : Bool) (root : Node) (hpl : root.plain = true) (c 
   intro he
   rw [he] at this
   exact this rfl
+
+/-- **For every tree of the class `Node.plain`, a whole compile never reports a code overflow**: not the counting pass
+(it has no buffer), not `Preallocate`, not the program pass -/
+theorem plain_compile_fits (dev : Bool) (root : Node) (hpl : root.plain = true) :
+    compile dev root ≠ .error (.ub .codeOverflow) := by
+  intro hcmp
+  unfold compile at hcmp
+  have hcnt : wp (emitRoot root (St.init true)) (fun _ => True) ECO := by
+    unfold emitRoot
+    rw [wp_bind]
+    refine wp_mono ((nc_all root).e _ rfl) ?_ (fun _ h => h)
+    intro t ht
+    exact wp_mono (emitEof_nc t ht) (fun _ _ => trivial) (fun _ h => h)
+  cases hc : emitRoot root (St.init true) with
+  | error e =>
+    rw [hc] at hcmp hcnt
+    simp only [error_bind] at hcmp
+    injection hcmp with hcmp
+    exact hcnt hcmp
+  | ok c =>
+    rw [hc] at hcmp
+    simp only [ok_bind] at hcmp
+    have hp := plain_code_fits dev root hpl c hc
+    cases hs : preallocate dev c.info with
+    | error e =>
+      rw [hs] at hcmp hp
+      simp only [error_bind] at hcmp
+      injection hcmp with hcmp
+      exact hp hcmp
+    | ok s =>
+      rw [hs] at hcmp hp
+      simp only [ok_bind] at hcmp
+      cases hr : emitRoot root s with
+      | error e =>
+        rw [hr] at hcmp
+        simp only [error_bind] at hcmp
+        injection hcmp with hcmp
+        exact hp (hcmp ▸ hr)
+      | ok s' => rw [hr] at hcmp; simp only [ok_bind] at hcmp; cases hcmp
 
 end Morfuse.Emit
